@@ -22,6 +22,7 @@ func runC04(r *harness.Run) {
 	r.Assumptions = []string{"luaref implements the manual's §2.8 pseudo-code", "not judged: __len on tables, the second argument of __unm, __gc/__mode, callable tables as handlers, arithmetic on the string metatable"}
 	pr.runGens(gens, []string{"F-misc", "F-callmeta", "F-index", "F-chain", "F-cmp", "F-arith"})
 	runPinned(r, "C04")
+	reentrantFamily(r, "C04")
 	// handlers are entered through frames that the interpreter builds on the value stack: the same
 	// selection rules under a registry that reallocates on every growth step (one slot at a time,
 	// and in steps of 3 from 16), so that a handler call falls on a reallocation at every alignment
